@@ -745,6 +745,8 @@ inductive Prod where
   | inst (i : Inst)
   | qual (q : QualDecl)
   | syntaxError                       -- MOF text the parser rejects at this production
+  | missingInclude                    -- `#pragma include ("file")` naming a file that does not exist: OSError,
+                                      -- an exception that is NOT a pywbem.Error
   deriving Repr, Inhabited
 
 def isDepCode (c : Nat) : Bool :=
@@ -799,6 +801,7 @@ def mofProd (ns : Name) : Prod → M Unit
   | .inst i => mofInst ns i
   | .qual q => setQualifier ns q
   | .syntaxError => raise .mofParseError
+  | .missingInclude => raise .osError
 
 /-- the compile WITHOUT the snapshot/restore of the fix (original code) -/
 def compileMofNoRestore (ns : Name) (ps : List Prod) : M Unit := do
